@@ -121,7 +121,14 @@ func Main() {
 	tier := flag.String("tier", "quick", "quick or thorough")
 	only := flag.String("design", "", "restrict to one design")
 	onlyM := flag.String("method", "", "restrict to one method")
+	seq := flag.String("seq", "", "operation sequences (opseq.go): run this one sequence on a fresh pair and print the observations")
+	specfile := flag.String("specfile", "", "with -seq: the design's spec.json")
+	service := flag.String("service", "", "with -seq: the service")
 	flag.Parse()
+	if *seq != "" {
+		seqChildMain(*specfile, *only, *service, *seq)
+		return
+	}
 	f, ok := modes[*mode]
 	if !ok {
 		fmt.Fprintf(os.Stderr, "unknown mode %q\n", *mode)
@@ -148,6 +155,7 @@ func Main() {
 	for _, d := range ci.Designs {
 		if d.Linked && (*only == "" || *only == d.Name) {
 			designs = append(designs, d)
+			designDirs.Store(d.Name, d.Dir)
 		}
 	}
 	var wg sync.WaitGroup
